@@ -144,6 +144,20 @@ func loadProgram(repoDir, specDir string, patterns []string) (*Program, error) {
 	for path, ps := range P.specs {
 		for _, name := range ps.Order {
 			con := ps.Contracts[name]
+			if strings.HasPrefix(name, "iface.") {
+				con.Trusted = true
+				for _, src := range con.modSrc {
+					switch src {
+					case "*":
+						con.Modifies = append(con.Modifies, &ModClause{src: src, all: true})
+					case "allmaps":
+						con.Modifies = append(con.Modifies, &ModClause{src: src, allMaps: true})
+					default:
+						return nil, fmt.Errorf("%s:%d: interface contracts support only `modifies *` / `modifies allmaps` / nothing", con.File, con.Line)
+					}
+				}
+				continue
+			}
 			fn := P.funcs[path+"::"+name]
 			if fn == nil {
 				return nil, fmt.Errorf("%s:%d: contract for %s: no such function in %s (anchor missing)", con.File, con.Line, name, path)
@@ -190,7 +204,19 @@ func (P *Program) recFunc(pkg *types.Package, name string) *RecFunc {
 
 func (P *Program) ghostField(owner types.Type, name string) *GhostField { return nil }
 
-func (P *Program) ifaceContract(t types.Type, method string) *Contract { return nil }
+// ifaceContract: an assumed contract for calls through an interface, written as `extern iface.<Interface>.<Method>`
+// in the contract file of the interface's package. Only its frame (modifies) is used at call sites.
+func (P *Program) ifaceContract(t types.Type, method string) *Contract {
+	n, ok := t.(*types.Named)
+	if !ok || n.Obj().Pkg() == nil {
+		return nil
+	}
+	ps := P.specs[n.Obj().Pkg().Path()]
+	if ps == nil {
+		return nil
+	}
+	return ps.Contracts["iface."+n.Obj().Name()+"."+method]
+}
 
 func (P *Program) heapSortHint(ex *Exec, h string) (Sort, bool) { return "", false }
 
